@@ -44,6 +44,9 @@ class SequenceOfOrSetOfPayloadDecoder(object):
     def __call__(self, pyObject, asn1Spec, decodeFun=None, **options):
         asn1Value = asn1Spec.clone()
 
+        # an empty list still is a value, not a schema
+        asn1Value.clear()
+
         for pyValue in pyObject:
             asn1Value.append(decodeFun(pyValue, asn1Spec.componentType), **options)
 
